@@ -50,6 +50,11 @@ CAT = {
     'DIAMOND': (lambda: crystal.Crystal(FCCL, [A([0., 0., 0.]), A([0.25, 0.25, 0.25])]), dict(chem=0, cut=[0.45, 0.75])),
     'OMEGA': (lambda: crystal.Crystal(hexl(np.sqrt(3 / 8)), [np.zeros(3), A([1 / 3, 2 / 3, 0.5]), A([2 / 3, 1 / 3, 0.5])]),
               dict(chem=0, cut=[0.7], multiwyckoff=True)),
+    # omega with coordinates as they come out of a relaxation (good to 1e-5), symmetry threshold 1e-4, origin atom listed last:
+    # the symmetry operations carry the noise in their translations, images of the atom at 0 land at -delta
+    'OMEGA_N': (lambda: crystal.Crystal(hexl(np.sqrt(3 / 8)), [A([0.33334, 0.66665, 0.50001]), A([0.66667, 0.33332, 0.49999]), np.zeros(3)],
+                                        threshold=1e-4),
+                dict(chem=0, cut=[1.01], noisy=True)),
     'ROMEGA': (lambda: crystal.Crystal(hexl(np.sqrt(3 / 8)), [np.zeros(3), A([1 / 3, 2 / 3, 0.55]), A([2 / 3, 1 / 3, 0.45])]),
                dict(chem=0, cut=[0.7], multiwyckoff=True, vectorbasis=True)),
     'ROMEGA51': (lambda: crystal.Crystal(hexl(np.sqrt(3 / 8)), [np.zeros(3), A([1 / 3, 2 / 3, 0.51]), A([2 / 3, 1 / 3, 0.49])]),
@@ -167,6 +172,7 @@ def meta(name):
 def names(dim=None, **flags):
     out = []
     for n, (f, m) in CAT.items():
+        if m.get('noisy'): continue      # crystals given with a loosened symmetry threshold are used by name only (C23)
         out.append(n)
     return out
 
